@@ -472,7 +472,21 @@ package larking
 // (assumed pure at call sites; its body is checked for value-preserving integer
 // conversions: text that does not fit the field's type must be rejected by the
 // typed decoder, never truncated afterwards - C03's "rejected rather than coerced")
-//@ func parseParam serves C01 C09 trusted pure partial conv div index
+// C03, the part that is larking's own: every arm of the kind switch builds the value with
+// the constructor of that kind (a mismatch is a panic in Set or a silently different
+// value), after decoding the text with a decoder of the field's own width.
+//@ func parseParam serves C01 C09 C03 trusted pure partial conv div index ghost
+//@   assert atcall `protoreflect.ValueOfBool(` [bool-values-only-for-bool-fields C03] kind == protoreflect.BoolKind
+//@   assert atcall `protoreflect.ValueOfInt32(` [int32-values-only-for-int32-fields C03] kind == protoreflect.Int32Kind || kind == protoreflect.Sint32Kind || kind == protoreflect.Sfixed32Kind
+//@   assert atcall `protoreflect.ValueOfInt64(` [int64-values-only-for-int64-fields C03] kind == protoreflect.Int64Kind || kind == protoreflect.Sint64Kind || kind == protoreflect.Sfixed64Kind
+//@   assert atcall `protoreflect.ValueOfUint32(` [uint32-values-only-for-uint32-fields C03] kind == protoreflect.Uint32Kind || kind == protoreflect.Fixed32Kind
+//@   assert atcall `protoreflect.ValueOfUint64(` [uint64-values-only-for-uint64-fields C03] kind == protoreflect.Uint64Kind || kind == protoreflect.Fixed64Kind
+//@   assert atcall `protoreflect.ValueOfFloat32(` [float-values-only-for-float-fields C03] kind == protoreflect.FloatKind
+//@   assert atcall `protoreflect.ValueOfFloat64(` [double-values-only-for-double-fields C03] kind == protoreflect.DoubleKind
+//@   assert atcall `protoreflect.ValueOfString(` [string-values-only-for-string-fields C03] kind == protoreflect.StringKind
+//@   assert atcall `protoreflect.ValueOfBytes(` [bytes-values-only-for-bytes-fields C03] kind == protoreflect.BytesKind
+//@   assert atcall `protoreflect.ValueOfEnum(` [enum-values-only-for-enum-fields C03] kind == protoreflect.EnumKind
+//@   assert atcall `protoreflect.ValueOfMessage(` [message-values-only-for-message-fields C03] kind == protoreflect.MessageKind
 //@ func (tokens).String trusted pure
 
 //@ func (*path).search serves C01 C02 C09
@@ -1086,6 +1100,8 @@ package larking
 
 // Descriptor getters are pure, deterministic functions of the descriptor.
 //@ det MethodFullName "(protoreflect.MethodDescriptor).FullName" string
+//@ det MethodStreamsClient "(protoreflect.MethodDescriptor).IsStreamingClient" bool
+//@ det MethodStreamsServer "(protoreflect.MethodDescriptor).IsStreamingServer" bool
 //@ det MethodInput "(protoreflect.MethodDescriptor).Input" iface
 //@ det MethodOutput "(protoreflect.MethodDescriptor).Output" iface
 //@ det MsgFields "(protoreflect.MessageDescriptor).Fields" iface
@@ -1153,8 +1169,9 @@ package larking
 
 // Proxied streaming methods: the interceptor info carries the method's own
 // name and streaming flags (C18).
-//@ func createConnHandler serves C18 partial ghost nil
+//@ func createConnHandler serves C18 C10 partial ghost nil
 //@   requires md != nil && sd != nil
+//@   assert at "fn := func(_ interface{}, stream grpc.ServerStream) error {" [backend-stream-has-the-methods-shape C10] sd#2 != nil && sd#2.ClientStreams == isClientStream && sd#2.ServerStreams == isServerStream
 //@   assert at "fn := func(_ interface{}, stream grpc.ServerStream) error {" [proxied-stream-info C18] info != nil && info.IsClientStream == isClientStream && info.IsServerStream == isServerStream && info.FullMethod == method
 //@   assert at "fn := func(ctx context.Context, args interface{}) (interface{}, error) {" [proxied-unary-info C18] info#2 != nil && info#2.FullMethod == method
 // Locally registered streaming methods (the handler closure of registerService).
@@ -1381,6 +1398,8 @@ package larking
 //@   assert atcall `cc.NewStream(` [request-metadata-is-forwarded C10] ok ==> outctx == 1
 //@   assert atcall `clientStream.SendMsg(args)` [first-message-is-passed-on-as-received C10] pay(arg0) == args
 //@   ensures [backend-failure-is-returned-as-it-is C10] at "return outErr" err == outErr
+//@   count pumpwaits `wg.Wait(`
+//@   ensures [backend-failure-does-not-wait-for-the-client C10] at "return outErr" pumpwaits == 0
 //@   assert at "return err" [an-empty-client-stream-is-not-an-error C10] err != io.EOF
 //@   witness verifWitnessProxyEmptyStream for an-empty-client-stream
 //@   ensures [clean-end-passes-the-trailer-on C10] at "return nil" trailers == 1
